@@ -167,6 +167,27 @@ BUILT = {
         design="DESIGN.md section 6 C13",
         technique="TLA+ rule-spec round-trip laws model-checked with TLC + TLC trace validation of real serialisations",
     ),
+    "C14": dict(
+        text=("Equality.tla defines equality of conditions (commutative combinations), parts (all three conditions and the "
+              "label), paths, rules and schemas, and the behaviour of a term on a document. TLC checks on all triples of a "
+              "universe of conditions and parts that it is an equivalence implying identical behaviour (the as-coded "
+              "map-or-list equality is rejected). For families {x, rebuilt, commuted, single-atom mutants} of real objects "
+              "the full real == matrix and the real behaviour on probe documents are recorded and TLC checks reflexivity, "
+              "symmetry, transitivity, rebuilt/commuted equal and == => identical behaviour (real, and of the projected "
+              "terms under the specification)."),
+        design="DESIGN.md section 6 C14",
+        technique="TLA+ equality/behaviour relation model-checked with TLC (all triples) + TLC trace validation of recorded == matrices",
+    ),
+    "C18": dict(
+        text=("AddSchema.tla is a state machine over rule objects with identity and schemas as sequences of rule ids; TLC "
+              "checks every history of <= 3 additions for immutability of every existing rule object, only the target's "
+              "rule list changing, sortedness and the judgement law (the aliasing variant is rejected). Every history TLC "
+              "enumerates is replayed on real objects comparing, after each call, the projection of every schema, the "
+              "attribute writes (only S.rules), identity-level snapshots of T's rules and validate() of every schema on "
+              "every document; seeded random histories are compared with fresh re-rooted copies."),
+        design="DESIGN.md section 6 C18",
+        technique="TLA+ schema-heap state machine model-checked with TLC + TLC-generated histories replayed into real Schema/Rule objects",
+    ),
 }
 
 
